@@ -216,7 +216,7 @@ Proof.
     apply bank_mint_only, bank_only_fields in Hm. destruct Hm as (_ & _ & _ & _ & _ & He1 & _).
     apply bank_pay_only, bank_only_fields in Hp. destruct Hp as (_ & _ & _ & _ & _ & He2 & _).
     rewrite He2, He1. simpl. apply keys_set_NoDup. assumption.
-  - unfold do_set_params in H. inv_if H. inversion H. assumption.
+  - unfold do_set_params in H. inv_if H. inv_if H. inversion H. assumption.
   - inversion H. assumption.
   - apply do_hook_inv in H. destruct H as (sym0 & t & s2 & _ & _ & _ & _ & _ & _ & Hm & Hp).
     apply bank_mint_only, bank_only_fields in Hm. destruct Hm as (_ & _ & _ & _ & _ & He1 & _).
